@@ -148,6 +148,9 @@ Proof. by elim: l => //= x l ->; case: (f x). Qed.
 Lemma List_mapE (A B : Type) (f : A -> B) l : List.map f l = map f l.
 Proof. by elim: l => //= x l ->. Qed.
 
+Lemma List_filterE (A : Type) (p : A -> bool) l : List.filter p l = filter p l.
+Proof. by elim: l => //= x l ->. Qed.
+
 (* ======================================================================================== *)
 (* StrategyOnePlusLambda                                                                     *)
 (* ======================================================================================== *)
